@@ -148,7 +148,7 @@ def guarded(ctx, gen, what, case, fn):
     except (ImportError, AttributeError, TypeError):
         raise
     except Exception as e:  # noqa: BLE001
-        what, case = shrink_raise(gen, what, case)
+        what, case, e = shrink_raise(gen, what, case, e)
         ctx.fail(gen + "-raises", "%s raises %s: %s (the property demands a design for every such input)" % (what, type(e).__name__, e),
                  dict(case, raises=type(e).__name__))
         return None
@@ -165,7 +165,7 @@ def call_case(c):
     return impl_random(b, c["precisions"], c["N"], c["draw_seed"])
 
 
-def shrink_raise(gen, what, case):
+def shrink_raise(gen, what, case, e):
     """Smaller input on which the generator still raises (unit box, one parameter, few samples)."""
     size = "k" if case["op"] == "grid" else "N"
     for nb in ([[0.0, 1.0]], case["bounds"][:1], case["bounds"][:2]):
@@ -176,9 +176,9 @@ def shrink_raise(gen, what, case):
                 c["precisions"] = c["precisions"][:len(nb)]
             try:
                 call_case(c)
-            except Exception:  # noqa: BLE001
-                return "%s with number=%d, bounds %r" % (what.split(" ")[0], n, nb), c
-    return what, case
+            except Exception as e2:  # noqa: BLE001
+                return "%s with number=%d, bounds %r" % (what.split(" ")[0], n, nb), c, e2
+    return what, case, e
 
 
 # --------------------------------------------------------------------------- python mirrors of the specs (replay / shrink only)
